@@ -81,7 +81,7 @@ PROPS = {
         'assumptions': [],
     },
     'C01': {
-        'modules': ['SE.Props.C01', 'SE.Gen.TieRegistry'],
+        'modules': ['SE.Props.C01', 'SE.Gen.TieRegistry', 'SE.Gen.TieDeps'],
         'streams': [{'component': 'pipe_c01', 'note_kinds': set()}, {'component': 'binary', 'confirm': True, 'seed_off': 500}],
         'level': 'proof',
         'trusted_base': ["client_golang v1.22.0 (vector constructors, child creation and its panics, counter/gauge/histogram/summary updates, Delete, Gather's family checks) and perks' Query fast path are modelled by hand from their sources (SE/Model/Registry.lean)", 'FNV-64 label-hash collisions assumed away', 'IEEE float64 = Lean Float in the driver; strconv.ParseFloat and regexp results shipped by the harness', 'yaml.v2 decodes the rendered configuration to the intended fields'],
@@ -130,7 +130,7 @@ PROPS = {
         'assumptions': [],
     },
     'C19': {
-        'modules': ['SE.Props.C19', 'SE.Gen.TieMapper'],
+        'modules': ['SE.Props.C19', 'SE.Gen.TieMapper', 'SE.Gen.TieDeps'],
         'streams': [{'component': 'pipe_c19', 'note_kinds': {'panic', 'gather'}}, {'component': 'checkconfig', 'confirm': True}],
         'level': 'proof',
         'trusted_base': ["client_golang v1.22.0 (vector constructors, child creation and its panics, counter/gauge/histogram/summary updates, Delete, Gather's family checks) and perks' Query fast path are modelled by hand from their sources (SE/Model/Registry.lean)", 'FNV-64 label-hash collisions assumed away', 'IEEE float64 = Lean Float in the driver; strconv.ParseFloat and regexp results shipped by the harness', 'yaml.v2 decodes the rendered configuration to the intended fields'],
@@ -151,7 +151,7 @@ PROPS = {
         'assumptions': [],
     },
     'C18': {
-        'modules': ['SE.Props.C18'],
+        'modules': ['SE.Props.C18', 'SE.Gen.TieDeps'],
         'streams': [{'component': 'frame', 'confirm': True, 'note_kinds': {'frame'}}, {'component': 'udpq', 'confirm': True}],
         'level': 'proof',
         'trusted_base': ["bufio.Reader.ReadLine (4096-byte buffer) modelled from the Go standard library source at the level of buffer + chunks", "the kernel delivers loopback datagrams intact and TCP bytes in order; real TCP segmentation is whatever the kernel does with the generated writes", "goroutine scheduling of reader/processor and concurrent TCP connections are not in the model (partial)"],
